@@ -202,12 +202,19 @@ func runC20(c *Ctx) {
 		one(idx, kind, doc)
 		return true
 	})
+	// Format itself against its Lean model (Model/FormatDoc.lean, the subject of the C20Doc theorems): every write, the
+	// error and panic flags, healthy and failing writers, parsed and synthetic forests
+	{
+		corrF := &Batch{c: c}
+		xfmtAll(c, corrF, 2)
+	}
 	n := c.N(12000, 400000)
 	inF := 0
 	for i := 0; i < n; i++ {
 		seed := c.Seed*7000003 + uint64(i)
 		size := 1 + i%4
-		d, ok := askDoc(c, seed, size, false, "all")
+		crlf := i%3 == 1
+		d, ok := askDoc(c, seed, size, crlf, "all")
 		if !ok {
 			continue
 		}
@@ -230,7 +237,7 @@ func runC20(c *Ctx) {
 			mask := uint64(1)<<uint(d.top) - 1
 			for j := 0; j < d.top && d.top <= 20; j++ {
 				try := mask &^ (1 << uint(j))
-				if dd, ok := askDoc(c, seed, size, false, fmt.Sprint(try)); ok && dd.fdoc && c20Clause2(dd.md) != "" {
+				if dd, ok := askDoc(c, seed, size, crlf, fmt.Sprint(try)); ok && dd.fdoc && c20Clause2(dd.md) != "" {
 					mask, best = try, dd
 				}
 			}
